@@ -103,11 +103,22 @@ def offs_first(timed):
 
 # ----------------------------------------------------------------------------- note automata
 
+CANONICAL_ABS = False   # set by checks of functions that canonicalise the absolute list before they look at it (see abs_order)
+
+
 def abs_order(timed):
     """order in which an absolute list is judged: offs before ons at equal ticks — unless the stored list order itself is
-    ill-formed (e.g. after channels were merged by set_channel an on may precede the off of the same key at one tick; the
-    library's relative view keeps that stored order), in which case the stored order is returned and the caller sees the
-    problems, i.e. treats the input as not well-formed"""
+    ill-formed (e.g. the note-on of a note stored before the note-off of the note it follows on that tick), in which case the
+    stored order is returned and the caller sees the problems, i.e. treats the input as not well-formed.  The library is
+    sensitive to that stored order in `quantise` and in the conversion to the relative view (both walk the list as stored),
+    so for them such a list is a different input.  Functions that sort canonically before they look at the list (note
+    pairing, hence quantise_note_lengths / cutoff / equals; merge; tokenise, which merges) see the same piece whatever the
+    insertion order was: their checks set CANONICAL_ABS and the canonical order is judged whenever IT is well-formed."""
+    if CANONICAL_ABS:
+        canon = offs_first(timed)
+        if not any(p[0] != "nonpositive" for p in automaton(canon)[0]):
+            return canon
+        return timed
     pr, _ = automaton(timed)
     if any(p[0] != "nonpositive" for p in pr):
         return timed
